@@ -42,8 +42,12 @@ R13.6  in Pilot._update every path from the entry to an invocation of the
        write may be skipped only along an edge on which that state equals the
        state the pilot has (a comparison of just these two).  A write that
        follows the invocation, or one of another value, leaves the callback
-       looking at the previous state: no task is failed.  (A write on some
-       paths only under another condition: undecided, ANALYSIS-ERROR.)
+       looking at the previous state: no task is failed.  A write on some
+       paths only under another condition is decided per pair (final state
+       notified, non-final state of the pilot): the tests about either state
+       are evaluated over the folded state tables; a pair for which a path
+       reaches the invocation without a write is a finding (tests that cannot
+       be evaluated: undecided, ANALYSIS-ERROR).
 R13.7  every attribute of the task the callback tests - the pilot binding
        and the state - is one Task._update copies from the entry of the same
        name of the state notification whenever the notification carries a
@@ -71,6 +75,13 @@ R13.12 Pilot._update invokes every callback of the registry: each invocation
        iteration invokes the callable of its element (skipped at most on a
        test of that callable itself), no iteration leaves the loop, and the
        loop runs over all entries (no proper slice).
+R13.13 Pilot.register_callback keeps one registry entry per callable: the
+       key under which the callback is stored is the callable itself or its
+       id() (or the entry is appended) - not an attribute other callables
+       share (__name__, __qualname__, __func__, __self__ ...) and not a value
+       that does not depend on the callable: a later registration would
+       replace the entry add_pilots made and the manager would never hear of
+       the pilot's end.
 R13.8  also decides (in C14's R14.6) that a thing of another type - a task
        update in the same bulk - does not make the pilot manager leave its
        loop over the things.
@@ -2043,6 +2054,21 @@ def attr_stores(f, attr):
     return out
 
 
+class _TwoStates(StateEval):
+    """StateEval for a pair of states: `is_state` expressions denote the
+    notified state, `is_cur` expressions the state the pilot has (`.cur`)"""
+
+    def __init__(self, prog, f, is_state, is_cur, **kw):
+        StateEval.__init__(self, prog, f, is_state, **kw)
+        self.is_cur = is_cur
+        self.cur = None
+
+    def ev(self, e):
+        if not self.is_state(e) and self.is_cur(e):
+            return self.cur
+        return StateEval.ev(self, e)
+
+
 def r13_6(prog, rep, pilot_reads, rid='R13.6'):
     rep.rule(rid, 'Pilot._update writes the state the notification carries '
              'to the attribute _pilot_state_cb reads (Pilot.state) on every '
@@ -2094,6 +2120,98 @@ def r13_6(prog, rep, pilot_reads, rid='R13.6'):
                 return 'T' if eq == pol else 'F'
         return None
 
+    table = [s for s in prog.const('states.py', '_pilot_state_values')
+             if s is not None]
+    final = [s for s in table if s in set(prog.const('states.py', 'FINAL'))]
+    nonfinal = [s for s in table if s not in final]
+    src_fixed = src not in assigned_names(upd.node)
+
+    def entry_of(e, hops=0):
+        """the key when `e` is the entry of that key of the notification
+        (`<notification>[K]`, `.get(K[, default])`, a local assigned once
+        from such a read), else None"""
+        while isinstance(e, ast.Name) and hops < 4:
+            v = single_assign(upd, e.id)
+            if v is None:
+                return None
+            e, hops = v, hops + 1
+        if not src_fixed:
+            return None
+        if isinstance(e, ast.Subscript) and isinstance(e.value, ast.Name) \
+                and e.value.id == src and isinstance(e.slice, ast.Constant):
+            return repr(e.slice.value)
+        if isinstance(e, ast.Call) and isinstance(e.func, ast.Attribute) and \
+                e.func.attr == 'get' and isinstance(e.func.value, ast.Name) \
+                and e.func.value.id == src and 1 <= len(e.args) <= 2 and \
+                isinstance(e.args[0], ast.Constant) and not e.keywords:
+            return repr(e.args[0].value)
+        return None
+
+    def skipped_for(stores, good, skip, on):
+        """([(final state t, non-final state c)]: notified t for a pilot in c,
+        a path entry -> `on` avoids every write of the notified state, each
+        test on it that is about one of the two states being evaluated for
+        the pair (the last c per t is tried first: the pilot is active);
+        tests that keep the answer open).  Tests about the states which
+        cannot be evaluated are not passed through for the first and are free
+        for the second."""
+        keys = {entry_of(v) for st, v in good}
+        if len(keys) != 1 or None in keys:
+            return [], [good[0][1]]
+        key = keys.pop()
+
+        def is_state(e):
+            return isinstance(e, (ast.Name, ast.Subscript, ast.Call)) and \
+                entry_of(e) == key
+
+        def is_cur(e, hops=0):
+            while isinstance(e, ast.Name) and hops < 4:
+                v = single_assign(upd, e.id)
+                if v is None:
+                    return False
+                e, hops = v, hops + 1
+            return isinstance(e, ast.Attribute) and unparse(e) in readers
+
+        names = {n.id for n in walk(upd.node)
+                 if isinstance(n, ast.Name) and (is_state(n) or is_cur(n))}
+        decided = {lab_n for lab_n, _ in skip}
+        about = []
+        for n in g.nodes:
+            if n.kind != 'test' or n.id in decided:
+                continue
+            dep = du.expr_depends(n.ast)
+            if dep & names or dep & readers or \
+                    any(is_state(x) for x in walk(n.ast, nested=True)):
+                about.append(n)
+        ev = _TwoStates(prog, upd, is_state, is_cur,
+                        resolve=lambda nm: single_assign(upd, nm))
+        lost, open_ = [], []
+        for t in final:
+            wrote = {smap[id(st)].id for st, v in good}
+            for st, v in stores:
+                if prog.fold(upd.module, v, upd.cls) == t:
+                    wrote.add(smap[id(st)].id)      # the same state, literal
+            for c in reversed(nonfinal):
+                ev.cur = c
+                off, unknown = list(skip), []
+                for n in about:
+                    try:
+                        off.append((n.id, 'F' if ev.holds(n.ast, t) else 'T'))
+                    except Uneval:
+                        unknown.append(n)
+                strict = g.reachable(
+                    g.entry.id, skip_edges=off,
+                    skip_nodes=wrote | {n.id for n in unknown})
+                if on.id in strict:
+                    lost.append((t, c))
+                    break
+                loose = g.reachable(g.entry.id, skip_edges=off,
+                                    skip_nodes=wrote)
+                if on.id in loose:
+                    open_ += [n.ast for n in unknown if n.id in loose] or \
+                        [good[0][0]]
+        return lost, open_
+
     for attr in attrs:
         stores = attr_stores(upd, attr)
         for st, v in stores:
@@ -2123,13 +2241,49 @@ def r13_6(prog, rep, pilot_reads, rid='R13.6'):
                 [e.dst for e in g.succ[smap[id(st)].id]
                  if e.label != 'exc' and not e.back], no_back=True)]
             if before:
-                raise AnalysisError(
-                    'UNRECOGNISED-IDIOM %s: `%s` writes the notified state '
-                    'to self.%s before `%s` on some paths only, and the '
-                    'condition is not a comparison of that state with the '
-                    'state of the pilot: cannot decide whether the callbacks '
-                    'see the new state' % (upd.where, short(before[0], 50),
-                                           attr, short(o, 40)))
+                lost, open_ = skipped_for(stores, good, skip, on)
+                if lost:
+                    ends = [t for t, c in lost]
+                    rep.bad(rid, upd, 'self.%s written before %s for every '
+                            'final state' % (attr, short(o, 40)),
+                            '%s: `%s` writes the notified state to self.%s '
+                            'on some paths only: with the tests on the path '
+                            'evaluated for each pair (notified state, state '
+                            'of the pilot), a path from the entry to `%s` '
+                            '(the pilot specific callbacks, among which '
+                            'TaskManager.add_pilots registered '
+                            '_pilot_state_cb) avoids every write when the '
+                            'notified state is %s (e.g. for a pilot in %s).  '
+                            '_pilot_state_cb reads that attribute '
+                            '(pilot.state): for a pilot that ends %s it sees '
+                            'the previous, non-final state and fails no task'
+                            % (upd.qual, short(before[0], 50), attr,
+                               short(o, 40), ' / '.join(ends), lost[0][1],
+                               ' or '.join(ends)), upd.loc(before[0]),
+                            history='pilot p1 is %s, task t1 is bound to it '
+                            'and not final; the notification p1 -> %s '
+                            'arrives: Pilot._update leaves p1.state at %s '
+                            'and runs the callbacks, _pilot_state_cb sees a '
+                            'non-final pilot and skips it: t1 stays '
+                            'non-final forever (wait_tasks hangs)'
+                            % (lost[0][1], lost[0][0], lost[0][1]))
+                    continue
+                if open_:
+                    raise AnalysisError(
+                        'UNRECOGNISED-IDIOM %s: `%s` writes the notified '
+                        'state to self.%s before `%s` on some paths only, '
+                        'and the condition (`%s`) is neither a comparison of '
+                        'that state with the state of the pilot nor a test '
+                        'of that state alone: cannot decide whether the '
+                        'callbacks see the new state'
+                        % (upd.where, short(before[0], 50), attr,
+                           short(o, 40), short(open_[0], 50)))
+                rep.ok(rid, upd, '%s: for every final state the '
+                       'notification can carry, every path to `%s` writes it '
+                       'to self.%s first (the write is skipped for non-final '
+                       'states or an unchanged state only)'
+                       % (upd.qual, short(o, 40), attr), upd.loc(o))
+                continue
             others = [st for st, v in stores if not is_target(v)]
             if good:
                 how = 'only writes it afterwards (`%s`, line %d)' % (
@@ -2157,6 +2311,195 @@ def r13_6(prog, rep, pilot_reads, rid='R13.6'):
                     'still PMGR_ACTIVE and skips p1; a DONE pilot is not '
                     'published again, so there is no second invocation: t1 '
                     'stays non-final forever (wait_tasks hangs)')
+
+
+# ------------------------------------------------------------------------------
+# R13.13: one registry entry per callable
+#
+# attributes of a callable that other callables share: the name and the
+# function of a bound method are those of the same method of every other
+# instance, the instance is that of every other method of it
+_SHARED_ATTRS = ('__name__', '__qualname__', '__func__', '__self__',
+                 '__module__', '__code__', '__class__')
+
+
+def registration_sites(reg):
+    """[(statement, key expression | None)]: the statements of
+    Pilot.register_callback which put the callback into the registry at the
+    level where one callback sits; key None: appended to a sequence / a set"""
+    f, cb = reg.fn, reg.cbparam
+    d = Deps(f.node, implicit=False)
+    out = []
+
+    def carries(e):
+        return cb in d.expr_depends(e)
+
+    for n in walk(f.node):
+        if isinstance(n, ast.Assign) and carries(n.value):
+            for t in n.targets:
+                if isinstance(t, ast.Subscript):
+                    p = _regpath(f, t, reg, _is_self)
+                    if p and p[0] == reg.depth:
+                        out.append((n, t.slice))
+        elif isinstance(n, ast.Call) and isinstance(n.func, ast.Attribute) \
+                and n.func.attr in _APPENDERS + ('setdefault',) and \
+                any(carries(a) for a in n.args):
+            p = _regpath(f, n.func.value, reg, _is_self)
+            if not p or p[0] + 1 != reg.depth:
+                continue
+            if n.func.attr == 'setdefault' and len(n.args) == 2:
+                out.append((n, n.args[0]))
+            elif n.func.attr == 'update':
+                if len(n.args) == 1 and isinstance(n.args[0], ast.Dict) and \
+                        all(k is not None for k in n.args[0].keys):
+                    out += [(n, k) for k, v in zip(n.args[0].keys,
+                                                   n.args[0].values)
+                            if carries(v)]
+                else:
+                    raise AnalysisError(
+                        'UNRECOGNISED-IDIOM %s: cannot tell under which key '
+                        '`%s` stores the callback' % (f.where, short(n, 60)))
+            else:
+                out.append((n, None))
+    return out
+
+
+def key_kind(prog, f, cb, e, d, depth=0):
+    """what the key `e` of a registry entry is, for the callable `cb` of the
+    registration: ('identity', how) the callable itself / its id() - no other
+    callable has it; ('shared', attribute) an attribute of the callable that
+    other callables have as well; ('constant', text) nothing of the callable;
+    ('unknown', text)"""
+    fixed = cb not in assigned_names(f.node)
+    if depth > 5:
+        return ('unknown', short(e, 40))
+    if isinstance(e, ast.Name):
+        if e.id == cb:
+            return ('identity', 'the callable itself') if fixed else \
+                ('unknown', cb)
+        v = single_assign(f, e.id)
+        if v is not None:
+            return key_kind(prog, f, cb, v, d, depth + 1)
+
+    def is_cb(x, hops=0):
+        while isinstance(x, ast.Name) and hops < 4:
+            if x.id == cb:
+                return fixed
+            x, hops = single_assign(f, x.id), hops + 1
+        return False
+
+    if isinstance(e, ast.Call) and dotted(e.func) == 'id' and \
+            len(e.args) == 1 and not e.keywords:
+        if is_cb(e.args[0]):
+            return ('identity', 'id() of the callable')
+        k = key_kind(prog, f, cb, e.args[0], d, depth + 1)
+        if k[0] == 'shared':
+            return k                     # the id() of a shared object
+        return ('unknown', short(e, 40))
+    if isinstance(e, ast.Attribute) and is_cb(e.value):
+        return ('shared', e.attr) if e.attr in _SHARED_ATTRS else \
+            ('unknown', unparse(e))
+    if isinstance(e, ast.Call) and dotted(e.func) == 'getattr' and \
+            2 <= len(e.args) <= 3 and not e.keywords and is_cb(e.args[0]) \
+            and isinstance(e.args[1], ast.Constant):
+        # the callback add_pilots registers is a bound method: it has each
+        # of these attributes, the default is not taken
+        a = e.args[1].value
+        return ('shared', a) if a in _SHARED_ATTRS else \
+            ('unknown', unparse(e))
+    if isinstance(e, ast.BoolOp) and isinstance(e.op, ast.Or):
+        k = key_kind(prog, f, cb, e.values[0], d, depth + 1)
+        if k[0] == 'shared' and k[1] != '__class__':
+            return k                     # a name / function / instance: true
+        return ('unknown', short(e, 40))
+    if isinstance(e, ast.Tuple) and not any(isinstance(x, ast.Starred)
+                                            for x in e.elts):
+        ks = [key_kind(prog, f, cb, x, d, depth + 1) for x in e.elts]
+        for want in ('identity', 'unknown', 'shared', 'constant'):
+            hit = [k for k in ks if k[0] == want]
+            if hit:
+                return hit[0]
+        return ('constant', '()')
+    if cb not in d.expr_depends(e):
+        stored = assigned_names(f.node)
+
+        def const(x):
+            if isinstance(x, ast.Constant):
+                return True
+            if isinstance(x, ast.Name):
+                return x.id != 'self' and x.id in f.params and \
+                    x.id not in stored or \
+                    prog.fold(f.module, x, f.cls) is not UNKNOWN
+            if isinstance(x, ast.Attribute):
+                return prog.fold(f.module, x, f.cls) is not UNKNOWN
+            if isinstance(x, ast.Tuple):
+                return all(const(y) for y in x.elts)
+            if isinstance(x, ast.BinOp):
+                return const(x.left) and const(x.right)
+            return False
+
+        if const(e):
+            return ('constant', short(e, 40))
+    return ('unknown', short(e, 40))
+
+
+def r13_13(prog, rep, rid='R13.13'):
+    rep.rule(rid, 'Pilot.register_callback keeps one registry entry per '
+             'callable: the key of the entry is the callable itself or its '
+             'id() (or the entry is appended), not something another '
+             'callable shares - a later registration must not replace the '
+             'callback TaskManager.add_pilots registered', minimum=1)
+    reg = _Reg(prog)
+    f, cb = reg.fn, reg.cbparam
+    rep.saw(f)
+    d = Deps(f.node, implicit=False)
+    sites = registration_sites(reg)
+    if not sites:
+        raise AnalysisError('UNRECOGNISED-IDIOM %s: no statement found that '
+                            'stores the callback in %s'
+                            % (f.where, sorted(reg.attrs)))
+    for st, key in sites:
+        if key is None:
+            rep.ok(rid, f, '%s: `%s` appends the callback: an entry of its '
+                   'own' % (f.qual, short(st, 50)), f.loc(st))
+            continue
+        kind, what = key_kind(prog, f, cb, key, d)
+        if kind == 'identity':
+            rep.ok(rid, f, '%s: `%s` stores the callback under %s: no other '
+                   'callable replaces the entry'
+                   % (f.qual, short(st, 50), what), f.loc(st))
+            continue
+        if kind == 'unknown':
+            raise AnalysisError(
+                'UNRECOGNISED-IDIOM %s: `%s` stores the callback under the '
+                'key `%s` (%s): cannot decide whether two different '
+                'callables can have the same key'
+                % (f.where, short(st, 50), short(key, 40), what))
+        if kind == 'shared':
+            why = ('the attribute %s of the callable, which it shares with '
+                   'other callables (the bound method `_pilot_state_cb` of '
+                   'every TaskManager has the same %s, and so has a method '
+                   'of that name of an application object)' % (what, what))
+        else:
+            why = ('`%s`, which does not depend on the callable at all: '
+                   'every registration for the same metric has the same key'
+                   % what)
+        rep.bad(rid, f, 'registry key of the callback',
+                '%s: `%s` stores the callback under a key that is %s.  A '
+                'dict keeps one entry per key: a later register_callback '
+                'with another callable REPLACES the entry '
+                'TaskManager.add_pilots made for _pilot_state_cb instead of '
+                'adding one.  Pilot._update then invokes the other callable '
+                'only, the task manager never learns that the pilot ended '
+                'and fails none of the tasks bound to it'
+                % (f.qual, short(st, 60), why), f.loc(st),
+                history='tm1.add_pilots(p1); task t1 of tm1 is bound to p1 '
+                'and executing; then a second TaskManager tm2 adds p1 too (or '
+                'the application registers a method of its own that is also '
+                'called _pilot_state_cb on p1): the entry of '
+                'tm1._pilot_state_cb is overwritten; p1 ends (DONE, FAILED '
+                'or CANCELED): only the second callback runs, nothing fails '
+                't1, it stays non-final forever (wait_tasks hangs)')
 
 
 # ------------------------------------------------------------------------------
@@ -3035,7 +3378,10 @@ def run(prog, rep, tier):
         'Task._update reads unconditionally; Pilot._update invokes the '
         'callable of every entry of the callback registry (invocation inside '
         'the loop over the registry, on every path of an iteration, loop not '
-        'left early, whole registry iterated).')
+        'left early, whole registry iterated); Pilot.register_callback '
+        'stores every callable under a key of its own (the callable or its '
+        'id()), so that a later registration cannot replace the callback '
+        'add_pilots registered.')
     rep.undecided = ('the transport of the notifications (pubsub bridges, '
         'C16) and the stickiness of final task states inside Task._update '
         '(C06); that TaskManager._update_tasks hands every task '
@@ -3057,6 +3403,16 @@ def run(prog, rep, tier):
         'comparison `notified state ==/!= state of the pilot` is the only '
         'condition under which the write may be skipped; operands are told '
         'apart by flow-insensitive dependence on the notification parameter',
+        'R13.6 (write on some paths only): the notified state ranges over '
+        'the final states and the state of the pilot over the non-final '
+        'states of states.py; `self.<state attribute>` and locals assigned '
+        'once from it denote the state of the pilot on a path without write; '
+        'tests that involve neither state are free',
+        'R13.13: the callback add_pilots registers is a bound method (it has '
+        '__name__, __qualname__, __func__, __self__): getattr(cb, <such an '
+        'attribute>, default) never takes the default; two task managers '
+        'may add the same pilot, and an application may register a method '
+        'of any name',
         'R13.7: a write `setattr(self, <name>, v)` / `self.<attr> = v` is a '
         'copy of the entry K when v is notification[K] / .get(K[, None]) or '
         'a local some reaching definition of which is; the key collection '
@@ -3110,6 +3466,7 @@ def run(prog, rep, tier):
     r13_10(prog, rep)
     r13_11(prog, rep, f)
     r13_12(prog, rep)
+    r13_13(prog, rep)
     if tier == 'thorough':
         # sweep: the same rule on every other method of the package's manager
         # classes that fails tasks because of a pilot (none today)
@@ -3950,4 +4307,85 @@ SILENT += [
               "        for thing in things:\n\n"
               "            if thing.get('type') in ['task', 'service']:\n"
               "                continue\n\n" + _PTEST)]),
+]
+
+# ---- round 6: R13.6 decided per pair of states, R13.13 the registry key
+_REGKEY = "            cb_id = id(cb)\n"
+_REGSTORE = ("            cb_id = id(cb)\n"
+             "            self._callbacks[metric][cb_id] = {'cb'      : cb,\n"
+             "                                              'cb_data' : cb_data}\n")
+_UNREGKEY = "                    to_delete = [id(cb)]\n"
+
+MUTATIONS += [
+    dict(name='R13.6 seed C13-i2: the state write indented into the block that validates the transition',
+         rules=('R13.6',), edits=[
+        (_PL, _ST, "            self._state = target\n\n")],
+         note='FAILED / CANCELED skip the block: the callbacks see the previous state'),
+    dict(name='R13.6 final states left out: the write guarded by `target not in rps.FINAL`',
+         rules=('R13.6',), edits=[
+        (_PL, _ST, "        if target not in rps.FINAL:\n            self._state = target\n\n")]),
+    dict(name='R13.6 FAILED / CANCELED take a fast path around the write (pass / else form)',
+         rules=('R13.6',), edits=[
+        (_PL, _ST, "        if target in [rps.FAILED, rps.CANCELED]:\n            pass\n        else:\n            self._state = target\n\n")]),
+    dict(name='R13.6 the state is written for a single step forward only',
+         rules=('R13.6',), edits=[
+        (_PL, _ST, "        if rps._pilot_state_value(target) - rps._pilot_state_value(current) == 1:\n            self._state = target\n\n")],
+         note='a pilot that fails while launching jumps more than one step'),
+    dict(name='R13.13 seed C13-i6: registry keyed by the name of the callable in register / unregister',
+         rules=('R13.13',), edits=[
+        (_PL, _REGKEY, "            cb_id = getattr(cb, '__name__', id(cb))\n"),
+        (_PL, _UNREGKEY, "                    to_delete = [getattr(cb, '__name__', id(cb))]\n")]),
+    dict(name='R13.13 keyed by cb.__name__, inline', rules=('R13.13',), edits=[
+        (_PL, _REGSTORE, "            self._callbacks[metric][cb.__name__] = {'cb'      : cb,\n"
+                         "                                              'cb_data' : cb_data}\n")]),
+    dict(name='R13.13 keyed by the qualified name, id() as fallback of an `or`', rules=('R13.13',), edits=[
+        (_PL, _REGKEY, "            cb_id = getattr(cb, '__qualname__', None) or id(cb)\n")]),
+    dict(name='R13.13 keyed by the id() of the function behind the bound method', rules=('R13.13',), edits=[
+        (_PL, _REGKEY, "            cb_id = id(getattr(cb, '__func__', cb))\n")],
+         note='stable over attribute accesses - and the same for every TaskManager'),
+    dict(name='R13.13 one callback per metric: keyed by the metric', rules=('R13.13',), edits=[
+        (_PL, _REGKEY, "            cb_id = metric\n")]),
+]
+
+SILENT += [
+    # ---- R13.6: the write on some paths only, decided per pair of states
+    dict(name='R13.6 write skipped where the rank of the state is unchanged and the state is not final (test hoisted)', edits=[
+        (_PL, _ST, "        same_rank = rps._pilot_state_value(target) == rps._pilot_state_value(current)\n"
+                   "        if not same_rank or target in rps.FINAL:\n"
+                   "            self._state = target\n\n")],
+         note='non-final states have different ranks: skipped only where nothing changes'),
+    dict(name='R13.6 one write per kind of target, DONE written as a literal', edits=[
+        (_PL, _ST, "        if target in [rps.FAILED, rps.CANCELED]:\n"
+                   "            self._state = target\n"
+                   "        elif target == rps.DONE:\n"
+                   "            self._state = rps.DONE\n"
+                   "        else:\n"
+                   "            self._state = target\n\n")]),
+    dict(name='R13.6 final states always written, others when they differ', edits=[
+        (_PL, _ST, "        is_final = target in rps.FINAL\n"
+                   "        if is_final or target != current:\n"
+                   "            self._state = target\n\n")]),
+    dict(name='R13.6 write skipped only for a non-final state of the same rank, early-pass form', edits=[
+        (_PL, _ST, "        if target not in rps.FINAL and \\\n"
+                   "           rps._pilot_state_value(target) == rps._pilot_state_value(current):\n"
+                   "            pass\n"
+                   "        else:\n"
+                   "            self._state = target\n\n")]),
+    # ---- R13.13: rewrites of the store in Pilot.register_callback
+    dict(name='R13.13 key inline, no local', edits=[
+        (_PL, _REGSTORE, "            self._callbacks[metric][id(cb)] = {'cb'      : cb,\n"
+                         "                                               'cb_data' : cb_data}\n")]),
+    dict(name='R13.13 local renamed, entry built first and stored through a second local', edits=[
+        (_PL, _REGSTORE, "            entry  = {'cb': cb, 'cb_data': cb_data}\n"
+                         "            handle = id(cb)\n"
+                         "            key    = handle\n"
+                         "            self._callbacks[metric][key] = entry\n")]),
+    dict(name='R13.13 keyed by the callable itself at both ends', edits=[
+        (_PL, _REGSTORE, "            self._callbacks[metric][cb] = {'cb'      : cb,\n"
+                         "                                           'cb_data' : cb_data}\n"),
+        (_PL, _UNREGKEY, "                    to_delete = [cb]\n")],
+         note='equal bound methods are the same callback: one entry per callable'),
+    dict(name='R13.13 key is the pair (metric, id of the callable) at both ends', edits=[
+        (_PL, _REGKEY, "            cb_id = (metric, id(cb))\n"),
+        (_PL, _UNREGKEY, "                    to_delete = [(metric, id(cb))]\n")]),
 ]
